@@ -412,13 +412,21 @@ def record_layout(ctx, lay):
                     raw[key] = o["raw"]
                     order.append(o["n"])
     # the library's own reachability (anchor: reachability over dictionary-valued states)
-    lib, lib_proj = None, None
+    lib, lib_proj, lib_why = None, None, {}
     try:
         if _LIB_TIMEOUTS[0] >= 2:
             raise _Timeout("reachable_states() not called any more after two time-outs")
         with time_limit(10 + len(order) // 10):
-            lib_states = list(gg.reachable_states())
+            lib_set = gg.reachable_states()
+            lib_states = list(lib_set)
         lib_proj = [rg.project(s) for s in lib_states]
+        # membership by value: a dictionary equal to a listed state, with its keys inserted in another order
+        # (a hand-written / model-generated state), must be `in` the set
+        for n in order:
+            st = raw[str(n)]
+            perm = reordered_equal(st)
+            if str(n) in {str(x) for x in lib_proj} and not (perm == st and perm in lib_set and st in lib_set):
+                lib_why.setdefault(str(n), "membership-of-equal-dict-with-other-key-order")
         lib = sorted({str(x) for x in lib_proj})
         lib_n = len(lib_states)
         ctx.evaluations += 1
@@ -426,9 +434,89 @@ def record_layout(ctx, lay):
         if isinstance(e, _Timeout):
             _LIB_TIMEOUTS[0] += 1
         lib, lib_n = f"{type(e).__name__}: {e}"[:200], -1
+    hist = {"requery": {}, "requery_margs": {}, "lib2": None, "error": None}
+    if error is None and not capped:
+        hist = history_probe(ctx, lay, order, raw)
+    if not isinstance(lib, str) and lib_proj is not None:
+        have = {str(x) for x in lib_proj}
+        for n in order:
+            if str(n) not in have:
+                lib_why[str(n)] = "first-call"
+        if hist["lib2"] is not None:
+            have2 = {str(x) for x in hist["lib2"]}
+            for n in order:
+                if str(n) not in have2:
+                    lib_why.setdefault(str(n), "after-bounded-call-on-same-game")
+        # what TLC gets: the states the library lists in every one of these observations
+        lib_proj = [x for x in lib_proj if str(x) not in lib_why]
     return {"lay": lay, "string": rg.string, "states": order, "events": events, "margs": margs, "capped": capped, "error": error,
-            "lib_states": lib, "lib_proj": lib_proj if not isinstance(lib, str) else None, "lib_n": lib_n,
-            "init_n": len(init_support)}
+            "lib_states": lib, "lib_proj": lib_proj if not isinstance(lib, str) else None, "lib_n": lib_n, "lib_why": lib_why,
+            "init_n": len(init_support), "hist": hist}
+
+
+def reordered_equal(st):
+    """An equal dictionary whose keys (outer and inner) were inserted in the reverse order."""
+    out = {}
+    for k in reversed(list(st)):
+        v = st[k]
+        out[k] = {kk: v[kk] for kk in reversed(list(v))} if isinstance(v, dict) else v
+    return out
+
+
+HIST_LIMIT = 60
+
+
+def history_probe(ctx, lay, order, raw):
+    """Call histories on ONE further game object of the layout (the statement's clauses hold for every reachable state
+    and joint action whatever the game object was asked before):
+      (a) a bounded exploration reachable_states(MAX_STATES=1) first, the unbounded one at the end;
+      (b) a simulation loop that keeps one state dictionary and updates it in place after every step;
+      (c) then fresh copies of recorded states are expanded again under all 25 joint actions ("requery")."""
+    import copy
+    out = {"requery": {}, "requery_margs": {}, "lib2": None, "error": None}
+    rg2 = RealGame(lay)
+    gg2 = rg2.gg
+    rng = random.Random(int(digest(lay), 16))
+    small = len(order) <= HIST_LIMIT and _LIB_TIMEOUTS[0] < 2
+    try:
+        if small:
+            with time_limit(10):
+                gg2.reachable_states(MAX_STATES=1)
+        cur = copy.deepcopy(gg2.initial_state_dist().support[0])
+        visited = [rg2.project(cur)]
+        with time_limit(60):
+            for _ in range(24):
+                if gg2.is_terminal(cur):
+                    break
+                d = gg2.next_state_dist(cur, rg2.ja(rng.randrange(25)))
+                ctx.evaluations += 1
+                cands = sorted(((float(p), i) for i, p in enumerate(d.probs) if float(p) > 0 and not gg2.is_terminal(d.support[i])),
+                               reverse=True)
+                if not cands:
+                    continue
+                ns = d.support[cands[0][1] if rng.random() < 0.7 else rng.choice(cands)[1]]
+                for an in rg2.names:                 # the caller's own dictionary, updated in place
+                    cur[an]["x"], cur[an]["y"] = ns[an]["x"], ns[an]["y"]
+                visited.append(rg2.project(cur))
+        targets = []
+        for n in visited + order[:2]:
+            if str(n) in raw and n not in targets and n != T:
+                targets.append(n)
+        for n in targets[:5]:
+            with time_limit(60):
+                rows, mg = rg2.expand(copy.deepcopy(raw[str(n)]))
+            ctx.evaluations += 25
+            out["requery"][str(n)] = rows
+            out["requery_margs"][str(n)] = mg
+        if small:
+            with time_limit(10 + len(order) // 10):
+                out["lib2"] = [rg2.project(x) for x in gg2.reachable_states()]
+            ctx.evaluations += 1
+    except _Timeout:
+        _LIB_TIMEOUTS[0] += 1
+    except Exception as e:                              # noqa: BLE001 - judged by the caller
+        out["error"] = {"state": order[0], "exc": f"{type(e).__name__}: {e}"[:200]}
+    return out
 
 
 # ---------------------------------------------------------------------------------- independent oracles
@@ -536,14 +624,23 @@ def game_pipeline(ctx, recs, *, selftest_expect=None, tag=""):
                            "rows": [[{"n": o["n"], "q": quant(o["p"]), "r": [qrew(x) for x in o["r"]],
                                       "z": quant(o.get("z", o["p"]))} for o in row]
                                     for row in rows]})
-            tmeta.append((li, n))
+            tmeta.append((li, n, False))
+        hist = r.get("hist") or {"requery": {}, "requery_margs": {}}
+        for key, rows in hist["requery"].items():
+            n = next(x for x in r["states"] if str(x) == key)
+            mg = hist["requery_margs"].get(key) or [[] for _ in rows]
+            traces.append({"lid": li, "kind": "expand", "s": n, "expanded": [],
+                           "marg": [[[{"c": e["c"], "q": quant(e["p"])} for e in m] for m in mm] for mm in mg],
+                           "rows": [[{"n": o["n"], "q": quant(o["p"]), "r": [qrew(x) for x in o["r"]],
+                                      "z": quant(o.get("z", o["p"]))} for o in row] for row in rows]})
+            tmeta.append((li, n, True))
         if r["states"][0] != r["lay"]["init"]:
             # the game starts somewhere else than the layout says: no clause of the statement by itself (the physical
             # clauses are judged against the layout wherever the agents really are)
             ctx.drift("initial-state-differs-from-layout", {"layout": digest(r["lay"]), "real": r["states"][0], "layout_init": r["lay"]["init"]})
         traces.append({"lid": li, "kind": "cover", "s": r["states"][0], "expanded": expanded, "rows": [], "marg": [],
                        "haslib": 1 if r.get("lib_proj") is not None else 0, "lib": r.get("lib_proj") or []})
-        tmeta.append((li, None))
+        tmeta.append((li, None, False))
     batch = {"layouts": layouts, "traces": traces}
 
     # ---- MC: the reference machine over the same layouts;  B: trace validation of the recorded behaviour
@@ -580,9 +677,10 @@ def game_pipeline(ctx, recs, *, selftest_expect=None, tag=""):
         raise TLCFailure(f"verdicts name clauses {sorted(seen_clauses)} but no invariant failed")
 
     nviol = 0
-    for ti, (tr, (li, n)) in enumerate(zip(traces, tmeta), start=1):
+    for ti, (tr, (li, n, after_history)) in enumerate(zip(traces, tmeta), start=1):
         r = recs[li - 1]
         lay = r["lay"]
+        events_here = r["hist"]["requery"] if after_history else r["events"]
         v = verdicts[ti]
         badset = v["bad"]
         harness_fault = [b for b in badset if b["c"] in ("closure", "malformed")]
@@ -595,7 +693,8 @@ def game_pipeline(ctx, recs, *, selftest_expect=None, tag=""):
         if tr["kind"] == "cover":
             missing = [b["n"] for b in badset if b["c"] == "reachable-states-not-closed"]
             if missing:
-                shape = f"fence_success_prob=1e-{lay['_tiny']}" if lay.get("_tiny") else "ordinary-layout"
+                why = (r.get("lib_why") or {}).get(str(missing[0]), "first-call")
+                shape = (f"fence_success_prob=1e-{lay['_tiny']}" if lay.get("_tiny") else "ordinary-layout") + ":" + why
                 ctx.violation(f"C18:TabularStochasticGame.reachable_states:not-closed:{shape}",
                               f"layout {li}\n{r['string']}\nreachable_states() has {r['lib_n']} states and lacks {len(missing)} "
                               f"state(s) that next_state_dist reaches with positive probability from the initial state, e.g. {missing[0]}",
@@ -624,8 +723,8 @@ def game_pipeline(ctx, recs, *, selftest_expect=None, tag=""):
                 site = ("joint_rewards" if c == "terminal-pays" else
                         "next_state_dist+marginalize" if c.startswith("marginal") else
                         "next_state_dist+normalize" if c == "normalize" else "next_state_dist")
-                shape = game_shape(lay, n, divmod(k, 5))
-                row = r["events"][str(n)][k]
+                shape = game_shape(lay, n, divmod(k, 5)) + ("+after-in-place-simulation-on-same-game" if after_history else "")
+                row = events_here[str(n)][k]
                 ctx.violation(f"C18:TabularGridGame.{site}:{c}:{shape}",
                               f"layout {li} state {n} joint action {[ACTS[a] for a in divmod(k, 5)]}: outcome {b['n']} breaks '{c}' "
                               f"(row: {[(o['n'], o['p']) for o in row]})",
@@ -633,7 +732,7 @@ def game_pipeline(ctx, recs, *, selftest_expect=None, tag=""):
                 nviol += 1
         # ---- A (DRIFT level): the exact distribution and rewards of the reference machine
         ok_ref = True
-        for k, row in enumerate(r["events"][str(n)]):
+        for k, row in enumerate(events_here[str(n)]):
             a1, a2 = divmod(k, 5)
             rec = expect.get((li, str(n), a1, a2))
             if rec is None:
@@ -741,6 +840,12 @@ def judge_game_errors(ctx, recs):
             ctx.violation(f"C18:TabularGridGame.next_state_dist:raises-{r['error']['exc'].split(':')[0]}",
                           f"layout\n{r['string']}\nstate {r['error']['state']}: {r['error']['exc']}",
                           {"kind": "game", "lay": r["lay"], "state": r["error"]["state"], "ja": 0, "clause": "raises"})
+            n += 1
+        he = (r.get("hist") or {}).get("error")
+        if he:
+            ctx.violation(f"C18:TabularGridGame.next_state_dist:raises-{he['exc'].split(':')[0]}:after-call-history-on-same-game",
+                          f"layout\n{r['string']}\nafter a bounded exploration and a simulation loop on the same game object: {he['exc']}",
+                          {"kind": "game", "lay": r["lay"], "state": he["state"], "ja": 0, "clause": "raises"})
             n += 1
     return n
 
